@@ -80,12 +80,19 @@ def build():
             self.request(PDU(octets, destination=LocalBroadcast() if dst is None else Address(dst)))
 
     class Device:
-        def __init__(self, max_apdu=1024, seg='segmentedBoth'):
+        def __init__(self, max_apdu=1024, seg='segmentedBoth', beside=None, address=DEVICE, own_lan=False):
+            """a complete device stack.  `beside` = an existing Device of the same process: the new
+            one shares its virtual clock and (unless `own_lan`) its LAN and raw stations, at `address`"""
             self.vt = _vt.VT.install()
-            self.vt.reset()
-            self.lan = Network(broadcast_address=LocalBroadcast())
+            self.address = address
+            if beside is None:
+                self.vt.reset()
+            if beside is None or own_lan:
+                self.lan = Network(broadcast_address=LocalBroadcast())
+            else:
+                self.lan = beside.lan
             self.device = LocalDeviceObject(
-                objectName="dut", objectIdentifier=("device", DEVICE),
+                objectName="dut%d" % address, objectIdentifier=("device", address),
                 maxApduLengthAccepted=max_apdu, segmentationSupported=seg,
                 maxSegmentsAccepted=16, vendorIdentifier=999)
             self.app = DevApp(self.device)
@@ -98,7 +105,7 @@ def build():
             bind(self.app, self.asap, self.smap, self.nsap)
             # what BIPSimpleApplication gives its services to reach down the stack
             self.app.asap, self.app.smap, self.app.nsap = self.asap, self.smap, self.nsap
-            self.node = Node(Address(DEVICE), self.lan)
+            self.node = Node(Address(address), self.lan)
             self.nsap.bind(self.node)
             self.av = AnalogValueObject(objectIdentifier=("analogValue", 1), objectName="av1",
                                         presentValue=12.5, statusFlags=[0, 0, 0, 0],
@@ -110,8 +117,12 @@ def build():
             self.file = MemFile(objectIdentifier=("file", 1), objectName="f1")
             for o in (self.av, self.bv, self.mv, self.file):
                 self.app.add_object(o)
-            self.wire = []
-            self.peers = dict((a, RawPeer(self.lan, a, self.wire)) for a in PEERS)
+            if beside is None or own_lan:
+                self.wire = []
+                self.peers = dict((a, RawPeer(self.lan, a, self.wire)) for a in PEERS)
+            else:
+                self.wire = beside.wire
+                self.peers = beside.peers
             self.peer = self.peers[PEER]
             self.vt.run()
             for p in self.peers.values():
